@@ -289,6 +289,11 @@ func FamLoop(t Type, emit func(Gen)) {
 		{VarInit{Name: "t", T: t, X: Bin{Op: "*", L: acc, R: a}}, Assign{Name: "acc", X: Bin{Op: "-", L: Var{Name: "t"}, R: ti}}},
 		{If{Cond: Bin{Op: "<", L: a, R: b}, Then: []Stmt{Assign{Name: "acc", X: Bin{Op: "+", L: acc, R: one(t)}}}, Else: []Stmt{Assign{Name: "acc", X: Bin{Op: "-", L: acc, R: ti}}}}},
 	}
+	// a loop variable named like an outer variable (Go: the loop's own variable, the outer one is untouched)
+	for n := int64(0); n <= 3; n++ {
+		body := []Stmt{Define{Name: "i", X: a}, Define{Name: "acc", X: b}, For{Var: "i", From: 0, To: n, Body: bodies[1]}, Return{X: []Expr{Bin{Op: "+", L: Var{Name: "i"}, R: acc}}}}
+		emit(Gen{"loop-var-shadow", &Program{Funcs: []Func{mainFn(ab(t), []Type{t}, body)}}})
+	}
 	for n := int64(0); n <= 4; n++ {
 		for from := int64(0); from <= 1 && from <= n; from++ {
 			for bi, bd := range bodies {
@@ -476,6 +481,31 @@ func FamConstFlow(t Type, emit func(Gen)) {
 	}
 	one1 := func(fam string, rts []Type, fs []Func, body []Stmt) {
 		emit(Gen{fam, &Program{Funcs: append(fs, mainFn(ab(t), rts, body))}})
+	}
+	// one constant value used at two types in one program: a typed constant of a narrower type and the bare literal
+	// (or the typed constant of this type) with the narrower type's top bit set
+	for _, nt := range []Type{{W: 8}, {W: 8, Signed: true}, {W: 16}} {
+		if nt.W >= t.W || (nt.Signed && !t.Signed) {
+			// (a signed narrow value cast to a wider unsigned type is a mixed-sign widening: not pinned, not generated)
+			continue
+		}
+		for _, v := range []int64{200, 128, 255, 40000, 100} {
+			top := int64(1) << uint(nt.W)
+			if v >= top || (nt.Signed && v >= top/2) {
+				continue
+			}
+			if vw < 63 && v >= 1<<uint(vw) {
+				continue
+			}
+			narrow := Bin{Op: "+", L: Cast{T: nt, X: b}, R: Const{T: nt, V: v}}
+			for _, order := range [][]Stmt{
+				{Define{Name: "c", X: narrow}, Return{X: []Expr{Bin{Op: "+", L: a, R: UConst{T: t, V: v}}, Cast{T: t, X: Var{Name: "c"}}}}},
+				{Define{Name: "d", X: Bin{Op: "+", L: a, R: UConst{T: t, V: v}}}, Define{Name: "c", X: narrow}, Return{X: []Expr{Var{Name: "d"}, Cast{T: t, X: Var{Name: "c"}}}}},
+				{Define{Name: "c", X: narrow}, Return{X: []Expr{Bin{Op: "+", L: a, R: Const{T: t, V: v}}, Cast{T: t, X: Var{Name: "c"}}}}},
+			} {
+				emit(Gen{"const-two-types." + t.Src() + "." + nt.Src(), &Program{Funcs: []Func{mainFn(ab(t), []Type{t, t}, order)}}})
+			}
+		}
 	}
 	for _, v := range lits {
 		c := UConst{T: t, V: v}
